@@ -249,6 +249,9 @@ func worldOpts(t cs.Src) cs.WorldOpts {
 	if t.Int("pv2", 0, 3) == 0 {
 		p.Consensus.ProtocolVersion = fsm.NewProtocolVersion(0, 2)
 	}
+	if t.Int("genretired", 0, 7) == 0 {
+		p.Consensus.Retired = 1 // the chain has announced its retirement: every own certificate is stamped Retired
+	}
 	o.Params = p
 	o.Weights = map[cs.OpKind]int{}
 	for k, v := range cs.DefaultStakingWeights {
